@@ -102,11 +102,15 @@ theorem parentInfos_congr (b b' : Book) (n : Node)
   simp only [pe2, Prod.mk.injEq] at this
   simp [this.1, this.2.1, this.2.2]
 
+theorem peStep_parity (d d' : Nat) (h : d' % 2 = d % 2) : peStep d' = peStep d := by
+  funext nm acc p
+  simp only [peStep, h]
+
 /-- `computeNegaMax` on node `j` reads: pending mark and costs, the node's depth / best move / search score /
     child list, and the three scores of each child. -/
 theorem scoresOf_congr (b b' : Book) (j : Nat)
     (hp : b'.isPending j = b.isPending j) (hc : b'.costs = b.costs)
-    (hd : (b'.nd j).depth = (b.nd j).depth) (hm : (b'.nd j).bestMove = (b.nd j).bestMove)
+    (hd : (b'.nd j).depth % 2 = (b.nd j).depth % 2) (hm : (b'.nd j).bestMove = (b.nd j).bestMove)
     (hs : (b'.nd j).search = (b.nd j).search) (hch : (b'.nd j).children = (b.nd j).children)
     (h : ∀ c ∈ childIds (b.nd j), scores3 (b'.nd c) = scores3 (b.nd c)) :
     b'.scoresOf j = b.scoresOf j := by
@@ -120,7 +124,7 @@ theorem scoresOf_congr (b b' : Book) (j : Nat)
 /-- `computePathError` on node `j` reads: the node's depth / negamax score / parent list (and its own path errors
     if it is the root), and negamax score and path errors of each parent. -/
 theorem pathErrOf_congr (b b' : Book) (j : Nat)
-    (hd : (b'.nd j).depth = (b.nd j).depth) (hn : (b'.nd j).nm = (b.nd j).nm)
+    (hd : (b'.nd j).depth % 2 = (b.nd j).depth % 2) (hd0 : (b'.nd j).depth = 0 ↔ (b.nd j).depth = 0) (hn : (b'.nd j).nm = (b.nd j).nm)
     (hpa : (b'.nd j).parents = (b.nd j).parents)
     (hcur : (b.nd j).depth = 0 → pe2 (b'.nd j) = pe2 (b.nd j))
     (h : ∀ p ∈ parentIds (b.nd j), (b'.nd p).nm = (b.nd p).nm ∧ pe2 (b'.nd p) = pe2 (b.nd p)) :
@@ -130,12 +134,13 @@ theorem pathErrOf_congr (b b' : Book) (j : Nat)
     have h1 : b'.parentInfos (b'.nd j) = b'.parentInfos (b.nd j) := by
       unfold Book.parentInfos; rw [hpa]
     rw [h1]; exact parentInfos_congr b b' (b.nd j) h
-  simp only [hd, hn, e]
+  simp only [hn, e]
   unfold calcPE
   by_cases h0 : (b.nd j).depth = 0
   · have := hcur h0
     simp only [pe2, Prod.mk.injEq] at this
-    simp [h0, this.1, this.2]
-  · simp [h0]
+    simp [h0, hd0.mpr h0, this.1, this.2]
+  · have h0' : ¬ (b'.nd j).depth = 0 := fun h => h0 (hd0.mp h)
+    simp only [h0, h0', if_false, peStep_parity _ _ hd]
 
 end Bk
